@@ -90,6 +90,20 @@ def ops : List (String × Op) := [
         let o ← pList pKindIdx
         pure ({ len := n, empty := e, bounds := b, order := o } : AcollAns))
       pure (verdict (okAcoll genes fcs (bs, be) a))),
+  -- the same with a chromosome parent: `<ps> <pe>` = its location ("- -": a parent without location)
+  ("acollp", do
+      let ps ← pOptNat; let pe ← pOptNat
+      let bs ← pOptNat; let be ← pOptNat
+      let genes ← pMembers true; let fcs ← pMembers false; pArrow
+      let a ← pAns (do
+        let n ← pNat; let e ← pBool
+        let b ← (do match (← get) with
+                    | "None" :: ts => set ts; pure none
+                    | _ => do let s ← pNat; let e ← pNat; pure (some (s, e)))
+        let o ← pList pKindIdx
+        pure ({ len := n, empty := e, bounds := b, order := o } : AcollAns))
+      let pb := match ps, pe with | some s, some e => some (s, e) | _, _ => none
+      pure (verdict (okAcollP pb genes fcs (bs, be) a))),
   -- accessors of the primary member, compared by the harness on real objects with sequence:
   -- `ok <p> <flags>`: every flag must be 1 (get_primary_transcript/feature is member p, and the sequence, CDS
   -- sequence and protein accessors return member p's values)
